@@ -10,6 +10,8 @@ def workload(g, tier):
     items += [("faulty", it) for it in multi_fault_items(g, nfault, 1, 3)]
     res = []
     for cls, it in items:
+        if g.chance(0.3):
+            xgen.add_foreign(g, it, g.r.randint(1, 2))
         mode = g.pick(["bare", "bare", "o2o", "grouped", "mixed"])
         res.append((cls + "/" + mode, it.meta.get("profile", "?"), xform.respell(it, g, mode).render()))
     try:
@@ -31,6 +33,8 @@ def features(src):
         f.append("child_parents")
     if re.search(r"#\[\w+ = ", src):
         f.append("name_value")
+    if re.search(r"child_parents\([^)]*<", src):
+        f.append("generic_child_parent")
     return f
 
 
